@@ -251,7 +251,7 @@ class C01(core.Check):
          'opcode-endian!=default', 'relative:from-start/forward', 'relative:from-start/backward',
          'relative:from-end/forward', 'relative:from-end/backward', 'negative-in-non-byte-multiple-field',
          'address:sliced', 'relative:curly', 'decorator:prefix', 'decorator:postfix', 'specific-operands',
-         'twin-statement:operand-names-differ-in-case-only'] +
+         'twin-statement:operand-names-differ-in-case-only', 'sets-and-specific-in-one-variant'] +
         [f'grid:{c}/{e}/{a}' for c in ('1', '2-7', '8', '9-15', '16', '17-31', '32', '33-63', '64')
          for e in ('big', 'little') for a in ('aligned', 'packed')])}
 
@@ -293,6 +293,42 @@ class C01(core.Check):
                         addr += len(b)
                         self.exhaustive_grid += 1
                     yield self._case(obj, lines, 'json', 'grid')
+        # one variant with both an operand-set pattern and an explicitly listed combination, each with its own reverse options
+        # (absent / true): the options of one pattern never leak into statements matched by the other
+        import itertools as _it
+        for fa, fb, ga, gb in _it.product([None, True], repeat=4):
+            obj = isamod.base_isa(address_size=16, endian='big')
+            obj['general']['registers'] = ['a', 'b']
+            obj['operand_sets'] = {
+                'rs': {'operand_values': {'ra': {'type': 'register', 'register': 'a', 'bytecode': {'value': 1, 'size': 3}},
+                                          'rb': {'type': 'register', 'register': 'b', 'bytecode': {'value': 2, 'size': 3}}}},
+                'n16': {'operand_values': {'nn': {'type': 'numeric', 'bytecode': {'value': 5, 'size': 3}, 'argument': {'size': 16, 'byte_align': True}}}},
+                'n8': {'operand_values': {'n8': {'type': 'numeric', 'bytecode': {'value': 6, 'size': 3}, 'argument': {'size': 8, 'byte_align': True}}}}}
+            sets = {'list': ['n8', 'n16']}
+            spec = {'list': {'sx': {'type': 'indirect_numeric', 'bytecode': {'value': 3, 'size': 3}, 'argument': {'size': 16, 'byte_align': True}},
+                             'sy': {'type': 'numeric', 'bytecode': {'value': 4, 'size': 3}, 'argument': {'size': 8, 'byte_align': True}}}}
+            if fa:
+                sets['reverse_argument_order'] = True
+            if fb:
+                sets['reverse_bytecode_order'] = True
+            if ga:
+                spec['reverse_argument_order'] = True
+            if gb:
+                spec['reverse_bytecode_order'] = True
+            obj['instructions'] = {'ldq': {'bytecode': {'value': 2, 'size': 2}, 'operands': {'count': 2, 'operand_sets': sets,
+                                                                                         'specific_operands': {'only': spec}}}}
+            lines = [{'k': 'org', 'text': '.org 0', 'addr': 0}]
+            addr = 0
+            for st, txt in (({'mn': 'ldq', 'variant': 0, 'spec': 'only', 'ops': [{'id': 'sx', 'val': 0x1234}, {'id': 'sy', 'val': 0x56}]}, 'ldq [$1234], $56'),
+                            ({'mn': 'ldq', 'variant': 0, 'spec': None, 'ops': [{'id': 'n8', 'val': 0x9A}, {'id': 'nn', 'val': 0xBCDE}]}, 'ldq $9a, $bcde'),
+                            ({'mn': 'ldq', 'variant': 0, 'spec': 'only', 'ops': [{'id': 'sx', 'val': 0x0102}, {'id': 'sy', 'val': 3}]}, 'ldq [258], 3')):
+                b, fl = encode.encode(obj, st, addr, {'GLOBAL': (0, 65535)})
+                lines.append({'k': 'instr', 'text': txt, 'addr': addr, 'size': len(b), 'bytes': b.hex(),
+                              'fields': [[a, s_, al, e, k] for a, s_, al, e, k in fl],
+                              'tags': ['sets-and-specific-in-one-variant', 'specific-operands' if st['spec'] else 'operand-sets'],
+                              'sig': layout_sig(fl)})
+                addr += len(b)
+            yield self._case(obj, lines, 'json', 'sets+specific')
         # seed-independent prelude + seeded random programs
         n_pre = 250
         n_rand = 700 if tier == 'quick' else 12000
